@@ -4,8 +4,8 @@ from .framework import *
 
 PROPERTY = 'C07'
 GEN_MODULES = ['consteval']
-LEAN_TARGETS = ['ChibiVerif.Props.C07', 'ChibiVerif.Findings.C07']
-PROPS_FILES = ['ChibiVerif/Props/C07.lean']
+LEAN_TARGETS = ['ChibiVerif.Props.C07', 'ChibiVerif.Props.C07Float', 'ChibiVerif.Findings.C07']
+PROPS_FILES = ['ChibiVerif/Props/C07.lean', 'ChibiVerif/Props/C07Float.lean']
 NEEDS_HOOKS = False
 TRUSTED_BASE = [
     'Lean 4.33.0 kernel; axioms admitted: propext, Classical.choice, Quot.sound (audited per theorem on every run)',
